@@ -46,14 +46,16 @@ def style_catalogue():
   add("Extent", sp.ExtentType(height=L(50, U.pct), width=L(60, U.pct)), sp.ExtentType(height=L(240, U.px), width=L(320, U.px)),
       sp.ExtentType(height=L(7.5, U.c), width=L(16, U.c)), sp.ExtentType(height=L(33.3333, U.rh), width=L(66.6667, U.rw)))
   add("FillLineGap", True, False)
-  add("FontFamily", ("Arial",), (sp.GenericFontFamilyType.serif, "Helvetica"), (sp.GenericFontFamilyType.default,),
+  add("FontFamily", tuple("Family %d" % k for k in range(1, 13)) + (sp.GenericFontFamilyType.sansSerif,), ("Arial",), (sp.GenericFontFamilyType.serif, "Helvetica"), (sp.GenericFontFamilyType.default,),
       ("Times New Roman", sp.GenericFontFamilyType.proportionalSansSerif), ('A"B',), ("A'B",), ("A\\B",), ("A,B",), ("serif",),
       (sp.GenericFontFamilyType.monospace, sp.GenericFontFamilyType.sansSerif, sp.GenericFontFamilyType.monospaceSansSerif,
        sp.GenericFontFamilyType.monospaceSerif, sp.GenericFontFamilyType.proportionalSerif))
   add("FontSize", L(2, U.em), L(80, U.pct), L(1, U.c), L(24, U.px), L(5, U.rh), L(3.5, U.rw), L(0.00001, U.em))
   add("FontStyle", sp.FontStyleType.normal, sp.FontStyleType.italic, sp.FontStyleType.oblique)
   add("FontWeight", sp.FontWeightType.normal, sp.FontWeightType.bold)
-  add("LineHeight", sp.SpecialValues.normal, L(120, U.pct), L(1.5, U.em), L(30, U.px), L(1.2, U.c), L(6, U.rh), L(1234567.5, U.px))
+  add("LineHeight", sp.SpecialValues.normal, L(120, U.pct), L(1.5, U.em), L(30, U.px), L(1.2, U.c), L(6, U.rh), L(1234567.5, U.px),
+      # values on which a six-significant-digit rendering carries into the next power of ten, or needs an exponent
+      L(999999.5, U.px), L(999999.96875, U.c), L(99999.95, U.pct), L(0.000099999995, U.em), L(123456789.25, U.px))
   add("LinePadding", L(0.5, U.c), L(0, U.c), L(1, U.rh), L(1.5, U.rw))
   add("LuminanceGain", 1.5, 2, 0.25)
   add("MultiRowAlign", sp.MultiRowAlignType.start, sp.MultiRowAlignType.center, sp.MultiRowAlignType.end, sp.MultiRowAlignType.auto)
@@ -92,7 +94,10 @@ def style_catalogue():
       sp.TextShadowType((S(L(1, U.px), L(1, U.px)), S(L(-1, U.px), L(-1, U.px), None, red), S(L(2, U.c), L(0, U.c), L(1, U.c)))),
       # pixel lengths only in a LATER shadow, after one with a non-pixel blur radius (the pixel extent must still be written)
       sp.TextShadowType((S(L(0.1, U.em), L(0.1, U.em), L(0.2, U.em)), S(L(2, U.px), L(3, U.px)))),
-      sp.TextShadowType((S(L(1, U.c), L(1, U.c), L(1, U.c), red), S(L(1, U.pct), L(1, U.pct)), S(L(1, U.em), L(1, U.em), L(4, U.px)))))
+      sp.TextShadowType((S(L(1, U.c), L(1, U.c), L(1, U.c), red), S(L(1, U.pct), L(1, U.pct)), S(L(1, U.em), L(1, U.em), L(4, U.px)))),
+      # a long list, with a shadow that occurs twice (and a value-equal one: 2 and 2.0)
+      sp.TextShadowType((S(L(1, U.px), L(1, U.px)), S(L(2, U.px), L(2, U.px), None, red), S(L(1, U.px), L(1, U.px)), S(L(2.0, U.px), L(2.0, U.px), None, red),
+                         S(L(3, U.px), L(0, U.px), L(1, U.px)), S(L(0.5, U.em), L(0.5, U.em)), S(L(4, U.pct), L(4, U.pct), L(1, U.pct), red))))
   add("UnicodeBidi", sp.UnicodeBidiType.normal, sp.UnicodeBidiType.embed, sp.UnicodeBidiType.bidiOverride)
   add("Visibility", sp.VisibilityType.visible, sp.VisibilityType.hidden)
   add("WrapOption", sp.WrapOptionType.wrap, sp.WrapOptionType.noWrap)
